@@ -53,31 +53,40 @@ Consumed(g) == Scan(g, 1, "out", 0) = "out"
 (* ---- the generator of gaps ------------------------------------------------ *)
 VARIABLES gap,      \* the symbol string built so far
           open,     \* nesting depth of the block comment being written (0: outside)
-          inline    \* writing an inline "-- ... --" comment
-vars == <<gap, open, inline>>
+          inline,   \* writing an inline "-- ... --" comment
+          last      \* inside a block comment: "l" / "t" when the last symbol is a slash / asterisk written as a *body*
+                    \* character (it may still pair up with what follows), "" otherwise
+vars == <<gap, open, inline, last>>
 
-Init == gap = <<>> /\ open = 0 /\ inline = FALSE
+Init == gap = <<>> /\ open = 0 /\ inline = FALSE /\ last = ""
 Room(n) == Len(gap) + n <= MaxGap
 Ws(c) == /\ open = 0 /\ ~inline /\ c \in {"s", "n"} /\ Room(1)
-         /\ gap' = Append(gap, c) /\ UNCHANGED <<open, inline>>
+         /\ gap' = Append(gap, c) /\ UNCHANGED <<open, inline, last>>
 \* "-- body newline": the body has no "--" and no newline
 LineComment(b) == /\ open = 0 /\ ~inline /\ Room(3 + Len(b))
-                  /\ gap' = gap \o <<"d", "d">> \o b \o <<"n">> /\ UNCHANGED <<open, inline>>
+                  /\ gap' = gap \o <<"d", "d">> \o b \o <<"n">> /\ UNCHANGED <<open, inline, last>>
 InlineComment(b) == /\ open = 0 /\ ~inline /\ Room(4 + Len(b))
-                    /\ gap' = gap \o <<"d", "d">> \o b \o <<"d", "d">> /\ UNCHANGED <<open, inline>>
+                    /\ gap' = gap \o <<"d", "d">> \o b \o <<"d", "d">> /\ UNCHANGED <<open, inline, last>>
+\* Slashes and asterisks may stand in the body as well, as long as the left-to-right reading of X.680 12.6.4 does not pair them
+\* up with a neighbour: a body asterisk must not be followed by a slash (body or the one of an opening delimiter: "*" "/*" reads
+\* "*/" "*"), a body slash not by an asterisk (body or the one of a closing delimiter: "/" "*/" reads "/*" "/").  What remains
+\* are the overlaps a scanner has to get right: "/*/" (opening delimiter, then a slash), "**/" , "*/*", "//*".
 OpenBlock == /\ ~inline /\ Room(2 + 2 * (open + 1))
-             /\ gap' = gap \o <<"l", "t">> /\ open' = open + 1 /\ UNCHANGED inline
+             /\ last # "t"
+             /\ gap' = gap \o <<"l", "t">> /\ open' = open + 1 /\ last' = "" /\ UNCHANGED inline
 BlockChar(c) == /\ open > 0 /\ Room(1 + 2 * open)
-                \* a body character that does not form a delimiter with its neighbour
-                /\ c \in {"x", "s", "n", "d"}
-                /\ gap' = Append(gap, c) /\ UNCHANGED <<open, inline>>
+                /\ c \in {"x", "s", "n", "d", "l", "t"}
+                /\ c = "l" => last # "t"
+                /\ c = "t" => last # "l"
+                /\ gap' = Append(gap, c) /\ last' = (IF c \in {"l", "t"} THEN c ELSE "") /\ UNCHANGED <<open, inline>>
 CloseBlock == /\ open > 0
-              /\ gap' = gap \o <<"t", "l">> /\ open' = open - 1 /\ UNCHANGED inline
+              /\ last # "l"
+              /\ gap' = gap \o <<"t", "l">> /\ open' = open - 1 /\ last' = "" /\ UNCHANGED inline
 \* comment bodies: strings over {x, s, single d} without "dd"
 Bodies == {<<>>, <<"x">>, <<"x", "s", "x">>, <<"d", "x">>, <<"x", "d", "x">>, <<"s", "x", "s">>}
 Next == \/ \E c \in {"s", "n"} : Ws(c)
         \/ \E b \in Bodies : LineComment(b) \/ InlineComment(b)
-        \/ OpenBlock \/ (\E c \in {"x", "s", "n", "d"} : BlockChar(c)) \/ CloseBlock
+        \/ OpenBlock \/ (\E c \in {"x", "s", "n", "d", "l", "t"} : BlockChar(c)) \/ CloseBlock
 Spec == Init /\ [][Next]_vars
 
 \* every complete gap is consumed entirely by the scanner, and ends Outside
@@ -89,7 +98,7 @@ StopsAtToken == (open = 0) => Scan(Append(gap, "x"), 1, "out", 0) = "token"
 
 (* ---- the forms the harness substitutes ------------------------------------- *)
 Forms == {"SP", "TAB", "LF", "CRLF", "NONE", "LINE", "LINE_NOSPACE", "INLINE", "INLINE_TIGHT", "BLOCK", "BLOCK_TIGHT", "NESTED",
-          "BLOCK_QUOTES", "LINE_KEYWORDS", "BLOCK_NONASCII", "MIXED"}
+          "BLOCK_QUOTES", "LINE_KEYWORDS", "BLOCK_NONASCII", "MIXED", "NESTED_SLASH", "BLOCK_STARS", "NESTED_STAR"}
 AbstractOf(f) ==
     CASE f \in {"SP", "TAB"} -> <<"s">>
       [] f = "LF" -> <<"n">>
@@ -102,6 +111,9 @@ AbstractOf(f) ==
       [] f \in {"BLOCK", "BLOCK_QUOTES", "BLOCK_NONASCII"} -> <<"s", "l", "t", "s", "x", "s", "t", "l", "s">>
       [] f = "BLOCK_TIGHT" -> <<"l", "t", "x", "t", "l">>
       [] f = "NESTED" -> <<"l", "t", "x", "l", "t", "x", "t", "l", "x", "t", "l">>
+      [] f = "NESTED_SLASH" -> <<"l", "t", "x", "l", "t", "l", "x", "t", "l", "x", "t", "l">>      \* /*a/*/b*/c*/
+      [] f = "BLOCK_STARS" -> <<"l", "t", "t", "x", "t", "t", "l">>                                \* /**c**/
+      [] f = "NESTED_STAR" -> <<"l", "t", "x", "l", "t", "x", "t", "l", "t", "x", "t", "l">>      \* /*a/*b*/*c*/
       [] OTHER -> <<"n", "s", "d", "d", "x", "n", "l", "t", "x", "t", "l", "s">>
 FormsAreGaps == \A f \in Forms : Consumed(AbstractOf(f))
 
